@@ -90,6 +90,7 @@ func Reset() {
 	resetVars()
 	extractOrigin = map[int][3]int{}
 	originTerm = map[int]*Term{}
+	sliceOrigin = map[int][]origin{}
 	nextID = 1
 	True = mk(&Term{K: KTrue})
 	False = mk(&Term{K: KFalse})
@@ -856,6 +857,24 @@ func fit(s *Term, w int) *Term {
 
 var extractMemo = map[[3]int]*Term{}
 
+// sliceOrigin is the reverse of extractMemo for results that are not KExtract nodes
+// (pushed-down forms): result ID -> the (a, hi, lo) it is the canonical extraction of. Concat
+// uses it to fuse adjacent canonical slices of one term back into that term (bytes of a
+// word that went through a []byte and is reassembled).
+type origin struct {
+	a      *Term
+	hi, lo int
+}
+
+var sliceOrigin = map[int][]origin{}
+
+func originsOf(q *Term) []origin {
+	if q.K == KExtract {
+		return append([]origin{{q.Args[0], q.Hi, q.Lo}}, sliceOrigin[q.ID]...)
+	}
+	return sliceOrigin[q.ID]
+}
+
 // Extract is memoised: pushing extraction through bitwise operators and (for low parts)
 // through modular arithmetic walks shared DAGs.
 func Extract(a *Term, hi, lo int) *Term {
@@ -875,9 +894,16 @@ func Extract(a *Term, hi, lo int) *Term {
 	r := extract1(a, hi, lo)
 	extractMemo[k] = r
 	if isBitwise(a) {
+		// rotation recognition (rotOf): first bitwise origin of a pushed-down extraction
 		if _, ok := extractOrigin[r.ID]; !ok {
 			extractOrigin[r.ID] = [3]int{a.ID, hi, lo}
 			originTerm[a.ID] = a
+		}
+	}
+	if r.K != KConst && a.K != KConcat && !(r.K == KExtract && r.Args[0] == a) {
+		// slice fusion (Concat): all terms r is a canonical slice of
+		if os := sliceOrigin[r.ID]; len(os) < 8 {
+			sliceOrigin[r.ID] = append(os, origin{a, hi, lo})
 		}
 	}
 	return r
@@ -989,9 +1015,17 @@ func extract1(a *Term, hi, lo int) *Term {
 			}
 			return AddN(args...)
 		}
+		if hi < a.W-1 {
+			// canonical: slice of the sum truncated to hi+1 bits (so that a[hi:lo] and
+			// (a[k:0])[hi:lo] are the same term)
+			return Extract(Extract(a, hi, 0), hi, lo)
+		}
 	case KNeg:
 		if lo == 0 {
 			return Neg(Extract(a.Args[0], hi, 0))
+		}
+		if hi < a.W-1 {
+			return Extract(Extract(a, hi, 0), hi, lo)
 		}
 	}
 	return mk(&Term{K: KExtract, W: nw, Args: []*Term{a}, Hi: hi, Lo: lo})
@@ -1037,8 +1071,20 @@ func Concat(parts ...*Term) *Term {
 				out[n-1] = Extract(q.Args[0], q.Hi, p.Lo)
 				continue
 			}
-			if q.K == KExtract && q.Args[0] == p && false {
-				continue
+			// q is the canonical form of A[hi:lo] and p the canonical (possibly pushed-down)
+			// form of A[lo-1:lo-p.W], e.g. the bytes of a sum or xor: fuse to A[hi:lo-p.W].
+			if p.K != KConst {
+				fused := false
+				for _, o := range originsOf(q) {
+					if o.lo >= p.W && Extract(o.a, o.lo-1, o.lo-p.W) == p {
+						out[n-1] = Extract(o.a, o.hi, o.lo-p.W)
+						fused = true
+						break
+					}
+				}
+				if fused {
+					continue
+				}
 			}
 		}
 		out = append(out, p)
